@@ -25,7 +25,7 @@ type rec struct {
 	K2   string   `json:"k2"`
 	C2   string   `json:"c2"`
 	Ops  []string `json:"ops"`
-	Must bool     `json:"must"` // the specification demands that parsing accepts this subject
+	PV   string   `json:"pv"`   // what the specification fixes about parsing this subject: must | mustnot | may
 	Kind string   `json:"kind"` // probes of the mutational driver only
 }
 
@@ -89,12 +89,34 @@ func buildSubject(ver, typ string, fs []fault) (*roomCtx, []byte, error) {
 		}
 	}
 	t := room.subjectTree(typ)
+	var late []fault // faults on the content hash itself are applied after the hash has been computed
 	for _, f := range fs {
+		if strings.HasPrefix(f.Path, "top/hashes") {
+			late = append(late, f)
+			continue
+		}
 		if !room.applyFault(t, f) {
 			return nil, nil, fmt.Errorf("fault %v cannot be applied to a %s event", f, typ)
 		}
 	}
 	raw := withContentHash(marshalTree(t), room.fmtV1)
+	if len(late) > 0 {
+		var hashed struct {
+			Hashes json.RawMessage `json:"hashes"`
+		}
+		if json.Unmarshal(raw, &hashed) == nil && hashed.Hashes != nil {
+			var h tree
+			if json.Unmarshal(hashed.Hashes, &h) == nil {
+				t["hashes"] = h
+			}
+		}
+		for _, f := range late {
+			if !room.applyFault(t, f) {
+				return nil, nil, fmt.Errorf("fault %v cannot be applied to a %s event", f, typ)
+			}
+		}
+		raw = marshalTree(t)
+	}
 	if typ == "create" && len(fs) > 0 {
 		if r2 := roomFor(ver, roomOpts{create: raw}); r2 != nil {
 			room = r2
@@ -172,14 +194,18 @@ func execRecord(i int, raw json.RawMessage) hx.Result {
 	return hx.Result{}
 }
 
-func execEvent(r *rec) hx.Result {
-	fs := r.faults()
+// runEventPipeline executes one pipeline on the subject with the given faults.
+func runEventPipeline(r *rec, fs []fault) (s *pipeState, parsed string, mach string) {
 	room, raw, err := buildSubject(r.Ver, r.Type, fs)
 	if err != nil {
-		return machine(err.Error())
+		return nil, "", err.Error()
 	}
-	s := &pipeState{room: room, typ: r.Type, class: classKey(fs), raw: raw, signer: signerOf(r.Type)}
-	parsed := "raw"
+	pv := r.PV
+	if len(fs) != len(r.faults()) {
+		pv = "may" // a reduced subject (minimisation): the verdict of the record does not apply
+	}
+	s = &pipeState{room: room, typ: r.Type, class: classKey(fs), raw: raw, signer: signerOf(r.Type)}
+	parsed = "raw"
 	for k, op := range r.Ops {
 		if k == 0 {
 			if op != "Parse:untrusted" {
@@ -189,23 +215,68 @@ func execEvent(r *rec) hx.Result {
 			s.note(op, o)
 			if o.Out != "ok" {
 				parsed = o.Out
-				if r.Must && o.Out == "error" {
-					return machine(fmt.Sprintf("the specification says a well-formed %s event parses in room version %s, the library says: %s; input %s", r.Type, r.Ver, o.Err, show(raw)))
+				if pv == "must" && o.Out == "error" {
+					return s, parsed, fmt.Sprintf("the specification says a well-formed %s event parses in room version %s, the library says: %s; input %s", r.Type, r.Ver, o.Err, show(raw))
 				}
 				break
+			}
+			if pv == "mustnot" {
+				return s, parsed, fmt.Sprintf("the specification says parsing rejects a %s event with %s in room version %s, the library accepts it; input %s", r.Type, classKey(fs), r.Ver, show(raw))
 			}
 			s.cur = ev
 			parsed = "parsed"
 			var red bool
 			if pi := guard(func() { red = ev.Redacted() }); pi == nil && red {
 				parsed = "parsed-redacted"
-				if r.Must {
-					return machine(fmt.Sprintf("well-formed %s event of room version %s parsed as redacted (content hash computed by the harness is wrong): %s", r.Type, r.Ver, show(raw)))
+				if pv == "must" {
+					return s, parsed, fmt.Sprintf("well-formed %s event of room version %s parsed as redacted (content hash computed by the harness is wrong): %s", r.Type, r.Ver, show(raw))
 				}
 			}
 			continue
 		}
 		s.runOp(op)
+	}
+	return s, parsed, ""
+}
+
+// subsets of the faults of a record, smallest first (the full set excluded)
+func properSubsets(fs []fault) [][]fault {
+	out := [][]fault{{}}
+	if len(fs) == 2 {
+		out = append(out, []fault{fs[0]}, []fault{fs[1]})
+	}
+	return out
+}
+
+func execEvent(r *rec) hx.Result {
+	fs := r.faults()
+	s, parsed, mach := runEventPipeline(r, fs)
+	if mach != "" {
+		return machine(mach)
+	}
+	// canonical class of every finding: the smallest subset of the faults that makes the same function panic
+	// under the same pipeline (a crash that the well-formed subject shows too is keyed `wellformed`)
+	if len(s.panics) > 0 && len(fs) > 0 {
+		var reduced []*pipeState
+		for _, sub := range properSubsets(fs) {
+			if s2, _, m2 := runEventPipeline(r, sub); m2 == "" && s2 != nil {
+				reduced = append(reduced, s2)
+			}
+		}
+		for i := range s.panics {
+			for _, s2 := range reduced {
+				hit := false
+				for _, f2 := range s2.panics {
+					if f2.Func == s.panics[i].Func {
+						hit = true
+					}
+				}
+				if hit {
+					s.panics[i].Key = "C18/panic/" + s.panics[i].Func + "/" + s2.class
+					break
+				}
+			}
+		}
 	}
 	return finish(s, r, parsed)
 }
@@ -462,9 +533,40 @@ func execRaw(r *rec) hx.Result {
 	}
 	s := &pipeState{class: cls, raw: data}
 	for _, op := range r.Ops {
-		s.rawOp(op, r.Ver, data)
+		in := data
+		if r.Type == "event" && strings.HasPrefix(op, "Body:") {
+			in = wrapInBody(op, r.Ver, data) // the event JSON as one element of a response body of the standard room
+			s.raw = in
+		}
+		s.rawOp(op, r.Ver, in)
 	}
 	return finish(s, r, "raw")
+}
+
+// wrapInBody puts an event JSON into the response body that the Body:* operation decodes, next to the events of
+// the standard room.
+func wrapInBody(op, ver string, ev []byte) []byte {
+	c := roomFor(ver, roomOpts{})
+	var state, chain []interface{}
+	for _, n := range stateNames {
+		state = append(state, json.RawMessage(c.raw[n]))
+	}
+	for _, n := range c.chain() {
+		chain = append(chain, json.RawMessage(c.raw[n]))
+	}
+	e := json.RawMessage(ev)
+	switch op {
+	case "Body:CheckStateResponse":
+		return marshalTree(tree{"pdus": append(state, e), "auth_chain": append(chain, e)})
+	case "Body:SendJoin":
+		return marshalTree(tree{"state": append(state, e), "auth_chain": append(chain, e), "origin": "hs1", "event": e})
+	case "Body:Transaction":
+		return marshalTree(tree{"origin": "hs1", "origin_server_ts": 1700000000000, "pdus": []interface{}{chain[len(chain)-1], e}})
+	case "Body:LoadAndVerify":
+		return marshalTree(append(chain, e))
+	}
+	fatalf("cannot wrap an event for %q", op)
+	return nil
 }
 
 // ---------------------------------------------------------------- join family (PerformJoin)
@@ -479,6 +581,10 @@ func execJoin(r *rec) hx.Result {
 		"content": tree{"membership": "join"}, "depth": 20, "origin": "hs2", "origin_server_ts": 1700000020000,
 		"prev_events": room.refs([]string{room.ids["msg"]})}
 	auth := []string{room.ids["pl"], room.ids["jr"]}
+	if restrictedSupported(r.Ver) {
+		proto["content"] = tree{"membership": "join", "join_authorised_via_users_server": room.sender("alice")}
+		auth = append(auth, room.ids["jalice"])
+	}
 	if !room.domainless {
 		auth = append([]string{room.ids["create"]}, auth...)
 	}
@@ -502,7 +608,7 @@ func execJoin(r *rec) hx.Result {
 	for _, n := range stateNames {
 		state = append(state, json.RawMessage(room.raw[n]))
 	}
-	for _, n := range room.order {
+	for _, n := range room.chain() {
 		chain = append(chain, json.RawMessage(room.raw[n]))
 	}
 	sj := tree{"state": state, "auth_chain": chain, "origin": "hs1"}
@@ -531,7 +637,13 @@ func execJoin(r *rec) hx.Result {
 		}
 	}
 	data := marshalTree(tree{"make_join": mk, "send_join": sj, "echo": echo, "room": room.roomID})
-	cls := "join:" + classKey(r.faults())
+	cls := "join:make_join." + classKey([]fault{f1})
+	if f1.none() {
+		cls = "join:send_join." + strings.TrimPrefix(r.P2, "top/") + "=" + r.C2
+		if r.P2 == "none" {
+			cls = "join:send_join." + strings.ReplaceAll(strings.TrimPrefix(r.C2, "ev:top/"), "ev:", "event.")
+		}
+	}
 	s := &pipeState{class: cls, raw: data, room: room}
 	s.performJoin(r.Ver, data)
 	return finish(s, r, "raw")
